@@ -311,3 +311,49 @@ def jcall_cases():
                 c["prog"]["funcs"].append(helper)
                 out.append(c)
     return out
+
+
+def pressure_loop_cases():
+    """more values live across a loop than there are registers, most of them used only before and after it (what live range
+    splitting at -O2 spills on the loop's entry and restores on its exits): loops with one and two exits, nested, with a call
+    inside, with a value changed in the loop only on some iterations, integer and floating point values."""
+    out = []
+    S, N, CNT, ACC, J = 2, 3, 4, 5, 6
+    for nt in (10, 15, 20):
+        for shape in ("simple", "two_exits", "nested", "call_inside", "cond_update", "fp"):
+            for n in (0, 1, 4):
+                t0 = 7
+                temps = list(range(t0, t0 + nt))
+                fp = shape == "fp"
+                items = [ins("mov", R(S), M("i64", 0, 1)), ins("mov", R(N), M("i64", 8, 1)), ins("mov", R(ACC), I(0)), ins("mov", R(CNT), I(0))]
+                if fp:
+                    items += [ins("dmov", R(t0 + nt), M("d", 48, 1)), ins("dmov", R(t0 + nt + 1), M("d", 56, 1))]
+                items += [ins("add", R(t), R(S), I(3 * k + 1)) for k, t in enumerate(temps)]
+                hot = temps[:3]
+                body = [ins("add", R(ACC), R(ACC), R(hot[0])), ins("xor", R(hot[1]), R(hot[1]), R(ACC)), ins("add", R(hot[2]), R(hot[2]), R(CNT))]
+                if shape == "two_exits":
+                    body += [br("bgt", "out2", R(ACC), I(1 << 40))]
+                if shape == "nested":
+                    body += [ins("mov", R(J), I(0)), "in", ins("add", R(ACC), R(ACC), R(temps[3])), ins("add", R(J), R(J), I(1)), br("blt", "in", R(J), I(2))]
+                if shape == "call_inside":
+                    body += [{"op": "call", "callee": {"k": "ext"}, "res": [R(J)], "args": [I(2), R(ACC)]}, ins("add", R(ACC), R(ACC), R(J))]
+                if shape == "cond_update":
+                    body += [ins("and", R(J), R(CNT), I(1)), br("bf", "sk", R(J)), ins("add", R(temps[-1]), R(temps[-1]), I(1000)), "sk"]
+                if fp:
+                    body += [ins("dadd", R(t0 + nt), R(t0 + nt), R(t0 + nt + 1))]
+                items += ["lp", br("bge", "out", R(CNT), R(N))] + body + [ins("add", R(CNT), R(CNT), I(1)), {"op": "jmp", "l": "lp"}, "out"]
+                if shape == "two_exits":
+                    items += [ins("add", R(ACC), R(ACC), I(7)), "out2"]
+                items += [ins("add", R(ACC), R(ACC), R(t)) for t in temps]
+                if fp:
+                    items += [ins("dmov", M("d", 200, 1), R(t0 + nt))]
+                items += [ins("mov", M("i64", 192, 1), R(ACC)), {"op": "ret", "s": [R(ACC)]}]
+                insns, _ = progs.assemble(items)
+                w = lambda v: (v & ((1 << 64) - 1)).to_bytes(8, "little")
+                nregs = t0 + nt - 1 + (2 if fp else 0)
+                c = progs.family_case(insns, nregs, b"")
+                c["prog"]["funcs"][0]["regty"] = ["i"] * (t0 + nt - 1) + (["d", "d"] if fp else [])
+                c["buf0"] = list(w(100) + w(n) + bytes(32)) + fp_cells("d", FPV["1.5"], 8) + fp_cells("d", FPV["2.5"], 8) + c["buf0"][64:]
+                c["prog"]["bound"] = 400 + 40 * n * (4 if shape == "nested" else 1)
+                out.append(c)
+    return out
